@@ -35,7 +35,7 @@ fn neutralise(src: &str) -> String {
     out
 }
 
-const SHADOW: &str = "#[allow(unused_imports)] mod std { pub use crate::seams::shadow_std::*; } ";
+const SHADOW: &str = "#[allow(unused_imports)] mod std { pub use crate::seams::shadow_std::*; pub use crate::seams::shadow_std::env; } ";
 
 /// Helper modules next to the generators (`mod common;` -> src/bin/common.rs or
 /// src/bin/common/mod.rs): copied alongside, with the same shadow `std` the generator modules get
